@@ -321,6 +321,15 @@ def seq_cases(draw):
                  {"t1_pops": 0}]
     texts = [base["text"], base["text"], draw(world.texts_for(base["graphs"]))]
     calls = [{"text": draw(st.sampled_from(texts)), "slice": draw(st.sampled_from(caps_pool))} for _ in range(draw(st.integers(2, 4)))]
+    # graph edits between calls (the Apply stage's store.apply_deltas path, or upsert_edges): a weight / relation refresh
+    # of an EXISTING edge, or a new edge; the next propagation must follow the edited graph
+    editable = [(g, j) for g in base["order"] for j in range(len(base["graphs"][g]["edges"]))]
+    for c in calls[1:]:
+        if editable and draw(st.sampled_from([True, False])):
+            g, j = draw(st.sampled_from(editable))
+            c["edit"] = {"gid": g, "edge": j, "via": draw(st.sampled_from(["apply_deltas", "apply_deltas", "upsert_edges"])),
+                         "w": draw(st.sampled_from([0.0, 0.9, -0.9, 0.5, 1.0, 0.25])),
+                         "rel": draw(st.sampled_from([None, None, "supports", "associates", "contradicts"]))}
     base["calls"] = calls
     return base
 
@@ -331,15 +340,32 @@ def check_seq(case, rec=None):
     world.reset_engine_globals()
     cfg = _cfg_of(case)
     t1cfg = dict(cfg["t1"])
-    store = world.build_store({g: case["graphs"][g] for g in case["order"]})
+    import copy as _copy
+    graphs = _copy.deepcopy(case["graphs"])  # the reference's view of the graph contents, edited in step with the store
+    case = dict(case, graphs=graphs)
+    store = world.build_store({g: graphs[g] for g in case["order"]})
     state = {"store": store, "active_graphs": list(case["order"])}
     caps_on = perf_caps_active(case)
     hits = 0
+    edits = 0
     differing_caps = len({json_key(c["slice"]) for c in case["calls"]}) > 1
     for j, call in enumerate(case["calls"], 1):
         ctx = SimpleNamespace(cfg=cfg, config=cfg, agent_id="A", turn_id=j, now_ms=world.NOW_MS)
         if call["slice"] is not None:
             ctx.slice_budgets = dict(call["slice"])
+        ed = call.get("edit")
+        if ed is not None and ed["edge"] < len(graphs[ed["gid"]]["edges"]):
+            from clematis.engine.types import Edge
+            spec = graphs[ed["gid"]]["edges"][ed["edge"]]
+            spec["w"] = float(ed["w"])
+            if ed["rel"] is not None:
+                spec["rel"] = ed["rel"]
+            if ed["via"] == "apply_deltas":
+                store.apply_deltas(ed["gid"], [{"op": "upsert_edge", "id": spec["id"], "src": spec["src"], "dst": spec["dst"],
+                                                "weight": spec["w"], "rel": spec["rel"]}])
+            else:
+                store.upsert_edges(ed["gid"], [Edge(id=spec["id"], src=spec["src"], dst=spec["dst"], weight=spec["w"], rel=spec["rel"])])
+            edits += 1
         before = world.store_digest(store)
         try:
             res = t1_propagate(ctx, state, call["text"])
@@ -373,7 +399,8 @@ def check_seq(case, rec=None):
     if rec is not None:
         nt = hits > 0 and differing_caps
         rec.case(nontrivial=nt, dig=digest(case) if nt else None,
-                 labels=[f"calls={len(case['calls'])}"] + (["cache_hit"] if hits else []) + (["caps_differ"] if differing_caps else []),
+                 labels=[f"calls={len(case['calls'])}"] + (["cache_hit"] if hits else []) + (["caps_differ"] if differing_caps else []) +
+                        (["graph_edited_between_calls"] if edits else []),
                  sample={"calls": case["calls"], "text": case["text"], "t1": case["t1"] or case["validated"]} if nt else None)
 
 
